@@ -197,6 +197,24 @@ def _interpret_node(t: 'val', variables: 'set', model: 'Model') -> 'tuple':
     invariant(0, lambda: var == t[0] and edges == t[1])
     invariant(0, lambda: len(epidata) == 0 or pair_with_list(epidata[-1]))
     invariant(0, lambda: implies(has_concept, len(epidata) >= 1))
+    # proof hints for the nested-node step: one unfolding of read_edges, and with_pop spelled out
+    use('loop0.step.0', lambda: read_edges_snoc(var, edges[:_i - 1], edges[_i - 1], variables, model))
+    use('loop0.step.0', lambda: with_pop_is(read_node(target, variables, model)))
+    use('post.nonempty', lambda: with_pop_is(read_node(target, variables, model)))
+
+
+@lemma
+def read_edges_snoc(var: 'val', es: 'list', b: 'val', variables: 'set', model: 'Model'):
+    ensures(read_edges(var, es + [b], variables, model)
+            == read_edges(var, es, variables, model) + read_edge(var, b, variables, model))
+
+
+@lemma
+def with_pop_is(entries: 'list'):
+    requires(len(entries) >= 1 and pair_with_list(entries[-1]))
+    ensures(with_pop(entries) == entries[:-1] + [(entries[-1][0], entries[-1][1] + [mk('Pop')])])
+    ensures(len(with_pop(entries)) == len(entries))
+    ensures(pair_with_list(with_pop(entries)[-1]))
 
 
 # ---- layout diagnostics (C14) ---------------------------------------------------------------------
